@@ -234,6 +234,7 @@ def check(repo, rep, tier):
     r_chunks(repo, rep)
     r_gather(repo, rep)
     ti = rp.r_category_table(repo, rep, 'R11.5')
+    rp.r_call_locals(repo, rep, 'R11.5')
     if ti:
         rp.r_callbacks(repo, rep, 'R11.5')
         rp.r_sentence_loop(repo, rep, 'R11.4', ti)
